@@ -462,6 +462,8 @@ package css
 // the at-rule kind is looked up from the lower-cased name (the hash table holds lower-case names only)
 //@   callsite css.ToHash[F,C08] @lowered: forall(k, 0, len(arg0), !('A' <= arg0[k] && arg0[k] <= 'Z'))
 //@ func Parser.parseQualifiedRule
+// inside an attribute selector [...] white space is not a combinator: the flag is set by '[' and cleared by the next ']'
+//@   loop 1 transition[F,C08] @attr-sel: inAttrSel <==> ite(tt == LeftBracketToken, true, ite(tt == RightBracketToken, false, prev(inAttrSel)))
 //@   loop 1 transition[F,C08] @level: smallInt(prev(p.level)) ==> p.level == prev(p.level) + cssLevelStep(tt)
 //@   loop * candidate[T] first ==> p.tt == old(p.tt) && cpM(p) == old(cpM(p))
 //@   loop * candidate len(p.state) == old(len(p.state))
